@@ -109,7 +109,12 @@ pub fn c13(tier: &str, seed: u64) -> Vec<Case> {
         c.nontrivial = !ops.is_empty() && !questions.is_empty();
         if out == "panic" { c = c.fail("reply-panic", "build_reply panicked".into()); }
         // the property, directly over the registry
-        let matches = |a: &ResourceRecord, qu: &Question| a.match_qtype(qu.qtype) && a.match_qclass(qu.qclass);
+        let matches = |a: &ResourceRecord, qu: &Question| {
+            let t = a.rdata.type_code();
+            let type_ok = match qu.qtype { QTYPE::ANY => true, QTYPE::TYPE(x) => x == t, QTYPE::MAILB => t == TYPE::MB || t == TYPE::MG || t == TYPE::MR, other => a.match_qtype(other) };
+            let class_ok = match qu.qclass { QCLASS::ANY => true, QCLASS::CLASS(c) => c as u16 == a.class as u16 };
+            type_ok && class_ok
+        };
         let auth: Vec<&ResourceRecord> = reg.iter().filter(|e| e.1).map(|e| &e.0).collect();
         let must: Vec<&ResourceRecord> = auth.iter().copied().filter(|a| questions.iter().any(|qu| a.name == qu.qname && matches(a, qu))).collect();
         match &reply {
